@@ -54,4 +54,10 @@ KKGridDef == {R(1, 2), I(1), I(2), I(3)}
 NGridDef == {I(1), I(2), I(3), R(1, 2), R(3, 2)}
 VGridDef == {R(1, 2), I(1), I(2), I(3)}
 VGridSq == {R(1, 4), I(1), I(4)}
+\* thorough tier
+XGridBig == {I(0), I(1), I(2), I(3), I(4), I(5), R(1, 2), R(3, 2), R(5, 2)}
+KGridBig == {I(2), R(1, 2), I(3), R(7, 4), I(5)}
+KKGridBig == {R(1, 2), I(1), I(2), I(3), R(1, 4), I(4)}
+NGridBig == {I(1), I(2), I(3), R(1, 2), R(3, 2)}
+VGridBig == {R(1, 2), I(1), I(2), I(3), I(4), I(5)}
 =============================================================================
